@@ -18,3 +18,7 @@ import TsVerif.C06.CursorProps
 #print axioms TsVerif.C06.cursor_node_agree_first
 #print axioms TsVerif.C06.cursor_node_agree_next
 #print axioms TsVerif.C06.cursor_field_spec
+#print axioms TsVerif.C06.cursor_last_child_spec
+#print axioms TsVerif.C06.gotoChild_preserves_inv
+#print axioms TsVerif.C06.gotoNextSibling_preserves_inv
+#print axioms TsVerif.C06.descendant_index_spec
